@@ -518,7 +518,7 @@ func (sc *c16CKKS) runRefresh(d *c16Deploy, ct *rlwe.Ciphertext, m []*bignum.Com
 			return &multiparty.RefreshShare{EncToShareShare: multiparty.KeySwitchShare{Value: *x.EncToShareShare.Value.CopyNew()},
 				ShareToEncShare: multiparty.KeySwitchShare{Value: *x.ShareToEncShare.Value.CopyNew()}, MetaData: *x.MetaData.CopyNew()}
 		},
-		alloc: func() any { s := mt0.AllocateShare(e2sLevel, outLevel); s.MetaData = *ct.MetaData.CopyNew(); return &s },
+		alloc: func() any { s := mt0.AllocateShare(e2sLevel, outLevel); return &s },
 		agg: func(a, b, out any) error {
 			return mt0.AggregateShares(a.(*multiparty.RefreshShare), b.(*multiparty.RefreshShare), out.(*multiparty.RefreshShare))
 		},
@@ -539,8 +539,11 @@ func (sc *c16CKKS) runRefresh(d *c16Deploy, ct *rlwe.Ciphertext, m []*bignum.Com
 	}
 	ra := agg.(*multiparty.RefreshShare)
 	if !ra.MetaData.Equal(ct.MetaData) {
-		ra.MetaData = *ct.MetaData.CopyNew()
-		ctx.Count("probe.aggregate-metadata-restored-by-caller", 1)
+		// every share carries the metadata of the ciphertext; the aggregate, whatever receiver it was formed in
+		// (one of the operands or a newly allocated share, as an aggregator without a share of its own does),
+		// is a share of the same refresh and the finalisation checks its metadata
+		ctx.Fail("aggregate", name+"|RefreshShare-metadata-lost", "the aggregate of %d refresh shares does not carry the metadata of the shares (scale %v vs %v): Transform / Finalize would reject it", d.n, &ra.MetaData.Scale.Value, &ct.MetaData.Scale.Value)
+		return false
 	}
 	in := ct.CopyNew()
 	out := in
